@@ -184,7 +184,7 @@ impl Anomaly {
             AfterGoaway { what } => format!("after-client-goaway-{}", ["request", "ping", "data", "nothing"][(*what as usize).min(3)]),
             Truncated { .. } => "truncated-frame-then-close".into(),
             BadPreface { kind, .. } => format!("bad-preface-{}", ["magic-byte", "http1-request", "ping-first", "settings-ack-first", "settings-on-stream", "settings-length-5", "headers-first"][(*kind as usize).min(6)]),
-            Flood { kind, n } => format!("flood-{}-{n}", ["ping", "settings", "empty-data", "rapid-reset", "continuation-tiny", "zero-length-header-fragments", "window-update"][(*kind as usize).min(6)]),
+            Flood { kind, n } => format!("flood-{}-{n}", ["ping", "settings", "empty-data", "rapid-reset", "continuation-tiny", "zero-length-header-fragments", "window-update", "padded-empty-data"][(*kind as usize).min(7)]),
         }
     }
 
@@ -200,7 +200,7 @@ impl Anomaly {
         };
         match self {
             DataOn { sel, .. } | HeadersOn { sel, .. } | ContinuationAlone { sel } | PrioritySelf { sel, in_headers: false } | PriorityLen { sel, .. } | WindowZero { sel } | WindowOverflow { sel } | WindowLen { sel, .. } | PingOnStream { sel } | Rst { sel } | RstLen { sel, .. } | GoawayOnStream { sel } | UnknownType { sel, .. } => of(sel),
-            Oversize { what: 0 | 3, .. } | PadTooLong { headers: false } | AfterGoaway { what: 2 } | Flood { kind: 2, .. } => vec![Phase::Open],
+            Oversize { what: 0 | 3, .. } | PadTooLong { headers: false } | AfterGoaway { what: 2 } | Flood { kind: 2 | 7, .. } => vec![Phase::Open],
             HeaderBlockInterleaved { with: 1 } => vec![Phase::Open],
             _ => vec![],
         }
@@ -290,7 +290,7 @@ fn anomaly() -> impl Strategy<Value = Anomaly> {
     let after = (0u8..4).prop_map(|what| AfterGoaway { what });
     let truncated = (prop_oneof![0u8..10, any::<u8>()], prop_oneof![Just(8u16), 1u16..200, 200u16..16384], any::<u16>(), any::<bool>()).prop_map(|(typ, declared, p, reset)| Truncated { typ, declared, present: p % declared.max(1), reset });
     let preface = (0u8..7, 0u8..24).prop_map(|(kind, pos)| BadPreface { kind, pos });
-    let flood = (0u8..7, flood_n()).prop_map(|(kind, n)| Flood { kind, n });
+    let flood = (0u8..8, flood_n()).prop_map(|(kind, n)| Flood { kind, n });
     prop_oneof![
         1 => Just(None),
         4 => stream_state,
@@ -1154,7 +1154,7 @@ fn build(case: &Case, c: &mut Conn, sk: &mut Skel, max_frame: usize) -> Injectio
                     }
                     inj.want_settings_acks = n;
                 }
-                2 => {
+                2 | 7 => {
                     let (id, st) = sk.resolve(case, Sel::Open, &[Sel::Open], Sel::Idle);
                     let id = if st == St::Open {
                         inj.state = Some(st);
@@ -1167,8 +1167,11 @@ fn build(case: &Case, c: &mut Conn, sk: &mut Skel, max_frame: usize) -> Injectio
                         inj.expect.target_served = true;
                         id
                     };
-                    for _ in 0..n {
-                        inj.bytes.extend(Frame::data(id, &[], false, Option::None).encode());
+                    for i in 0..n {
+                        // kind 7: PADDED frames with no content octets at all (Pad Length 0..3 + that much padding):
+                        // as empty as a zero-length frame for the application, not for the wire
+                        let pad = if *kind == 7 { Some((i % 4) as u8) } else { Option::None };
+                        inj.bytes.extend(Frame::data(id, &[], false, pad).encode());
                     }
                     if inj.expect.target.is_some() {
                         inj.bytes.extend(Frame::data(id, b"end", true, Option::None).encode());
@@ -1202,6 +1205,13 @@ fn build(case: &Case, c: &mut Conn, sk: &mut Skel, max_frame: usize) -> Injectio
                         inj.bytes.extend(Frame::window_update(0, 1).encode());
                     }
                 }
+            }
+            if inj.flood_frames >= 200 {
+                // every documented per-window threshold is at most 100 (doc/configure.md; H2FloodConfig defaults):
+                // at twice that, within one burst, the flood must be answered - GOAWAY(ENHANCE_YOUR_CALM), or the
+                // connection is gone (a GOAWAY written right before the close can be lost to a TCP reset)
+                inj.expect.ignore = false;
+                inj.expect.close_silently = true;
             }
             if n >= MIN_FLOOD_THRESHOLD {
                 // doc/configure.md "H2 flood detection thresholds": the connection is ended with GOAWAY(ENHANCE_YOUR_CALM) (RFC 9113 10.5)
